@@ -1,7 +1,7 @@
 SPECIFICATION MCSpec
 CONSTANTS
   NK = 2
-  MaxVal = 2
+  MaxVal = 3
   Hs = {1}
   MaxLimbo = 1
 CONSTRAINT MCConstraint
